@@ -411,6 +411,24 @@ func c03Shapes(c *Case) {
 	}
 }
 
+// a value kept by the program stays what it was when later values of the same input are read (a stream is the values
+// one after another): roots of every kind retained in BEGINFILE / rules / ENDFILE and printed at END
+func c03Retention(c *Case) {
+	progs := []*Program{
+		{Items: []any{&Rule{Kind: "BEGINFILE", Body: Blk(asg(Idx(V("kept"), V("n")), V("$")), asg(V("n"), Bin("+", V("n"), N("1"))))}, &Rule{Kind: "END", Body: Blk(Pr(V("n"), jsonOf(V("kept"))))}}},
+		{Items: []any{&Rule{Kind: "BEGINFILE", Body: Blk(&If{C: Bin("==", &Paren{X: &IncDec{Op: "++", X: V("n")}}, N("0")), Then: Blk(asg(V("first"), V("$")))})}, &Rule{Kind: "ENDFILE", Body: Blk(asg(V("last"), V("$")))}, &Rule{Kind: "END", Body: Blk(Pr(jsonOf(V("first")), jsonOf(V("last"))))}}},
+		{Items: []any{&Rule{Kind: "pattern", Body: Blk(ES(Meth(V("elems"), "push", V("$"))))}, &Rule{Kind: "BEGIN", Body: Blk(asg(V("elems"), Arr()))}, &Rule{Kind: "END", Body: Blk(Pr(jsonOf(V("elems"))))}}},
+	}
+	streams := []string{"[1,2,3] [7,8] [9]", "[1,2,3]\n[4,5,6]\n[7,8,9]\n", "[[1,2],[3]] [[4]] []", "[1] [2,3] [4,5,6] [7]", "{\"a\":[1,2]} {\"a\":[3]} {\"a\":[]}", "[\"x\",\"y\"] [\"z\"] 5 [null,null,null]", "[[1,[2,[3]]]] [[4,[5]]] [[6]]", "[] [] [1] []"}
+	for pi, p := range progs {
+		for _, st := range streams {
+			c.NonTrivial(fmt.Sprintf("retention:%d:%s", pi, st))
+			c.Count("retained_root_programs")
+			m2(c, &M2Case{Prog: p, Files: []InFile{{Name: "stream.json", Data: []byte(st)}}, Desc: "roots retained across the values of one input"})
+		}
+	}
+}
+
 // streams with one very large value (beyond any internal buffer size) followed by small ones
 func c03Big(c *Case) {
 	rng := c.Rng
@@ -801,6 +819,7 @@ func c03Run(c *Case) {
 	case c.Idx == 2:
 		c03Big(c)
 		c03Shapes(c)
+		c03Retention(c)
 	case c.Idx < 3+ncli:
 		c03Cli(c)
 	default:
@@ -811,7 +830,7 @@ func c03Run(c *Case) {
 func init() {
 	register(&Prop{
 		ID: "C03", Level: "fault_enumeration",
-		Rule:          "fault enumeration per generated value stream (1-6 values: arrays, objects, scalars, separators none/space/newline/CRLF/tab): 12 chunk plans on the intact stream (1 byte per read, 2, 7, whole, random partitions with (0,nil) reads, final (n,EOF) or (0,EOF)) which must all agree; EVERY truncation point; a reader error injected at EVERY offset twice, as (0,err) and as (n>0,err); EVERY single-byte deletion plus sampled substitutions and insertions of structural and control bytes (0x00, 0x0B, 0x0C, 0x1C-0x1F, 0x7F, 0x85, 0xA0); 29 fixed streams from the property (stray closers, garbage between values, touching values, BOM, form feed). Oracle: a hand-written stream splitter gives the complete values and whether the rest is clean/truncated/damaged; expected output = reference model on those values; outcome must be ok for a clean stream and a JSON error naming the file otherwise; the reader/writer ledger checks at every Read call that every value handed out together with one further byte already has its output written. Streams with one value of 4 KiB - 1 MiB (string, array, object; first / in the middle / last) among small ones under 5 read plans (all at once, one value per read, 64 KiB / 4 KiB / random blocks). 14 program shapes (no rules, BEGIN only, END only, function only, body-less pattern, ...) x 14 streams: a damaged stream is a JSON error whatever the program looks like. Binary level: the stream fed chunk by chunk on stdin or (every third case) through a named pipe given as a file argument; after each chunk the process is observed waiting for input via /proc (blocked in read(0), or for the named pipe: all threads asleep and no CPU time used between two observations) and the output due so far must be on the pipe; directory and /proc/self/mem as input; EIO injected with strace on read 1, 2, 3 of a file. Non-trivial = stream with >= 2 values; distinct by (stream, damage kind, position).",
+		Rule:          "fault enumeration per generated value stream (1-6 values: arrays, objects, scalars, separators none/space/newline/CRLF/tab): 12 chunk plans on the intact stream (1 byte per read, 2, 7, whole, random partitions with (0,nil) reads, final (n,EOF) or (0,EOF)) which must all agree; EVERY truncation point; a reader error injected at EVERY offset twice, as (0,err) and as (n>0,err); EVERY single-byte deletion plus sampled substitutions and insertions of structural and control bytes (0x00, 0x0B, 0x0C, 0x1C-0x1F, 0x7F, 0x85, 0xA0); 29 fixed streams from the property (stray closers, garbage between values, touching values, BOM, form feed). Oracle: a hand-written stream splitter gives the complete values and whether the rest is clean/truncated/damaged; expected output = reference model on those values; outcome must be ok for a clean stream and a JSON error naming the file otherwise; the reader/writer ledger checks at every Read call that every value handed out together with one further byte already has its output written. Streams with one value of 4 KiB - 1 MiB (string, array, object; first / in the middle / last) among small ones under 5 read plans (all at once, one value per read, 64 KiB / 4 KiB / random blocks). 3 programs that keep every root (BEGINFILE / rules / ENDFILE) x 8 streams of several top-level arrays and objects: a kept value is not disturbed by later values; 14 program shapes (no rules, BEGIN only, END only, function only, body-less pattern, ...) x 14 streams: a damaged stream is a JSON error whatever the program looks like. Binary level: the stream fed chunk by chunk on stdin or (every third case) through a named pipe given as a file argument; after each chunk the process is observed waiting for input via /proc (blocked in read(0), or for the named pipe: all threads asleep and no CPU time used between two observations) and the output due so far must be on the pipe; directory and /proc/self/mem as input; EIO injected with strace on read 1, 2, 3 of a file. Non-trivial = stream with >= 2 values; distinct by (stream, damage kind, position).",
 		NumCases:      c03Cases,
 		Run:           c03Run,
 		MinConclusive: func(tier string) int { return 50000 },
